@@ -24,7 +24,9 @@ func (v *Vue) evalInclude(ctx VueContext, node *html.Node, vars map[string]any, 
 	defer ctx.stack.Pop()
 
 	// Every component instance gets the slot content supplied on its own tag
+	outerSlots := ctx.SlotScope
 	ctx.SlotScope = extractSlotContent(node)
+	ctx.SlotScope.Outer = outerSlots
 
 	// Merge inherited slots from parent template (passed via __slotScope__ in data)
 	if inheritedSlotScopeData, ok := ctx.stack.EnvMap()["__slotScope__"]; ok {
